@@ -390,6 +390,7 @@ class Interp:
         self.max_unknown_len = 2       # an unknown collection is iterated with 0..max_unknown_len unknown elements
         self._modenv = {}
         self.bypass_stub_once = None
+        self.opaque_mutators = []      # external calls modelled as pure although they received a mutable container
         self.call_stack = []           # (module.rel, lineno) of the call expressions being evaluated, innermost last
 
     # ------------------------------------------------------------ helpers
@@ -1037,6 +1038,9 @@ class Interp:
                 break
             n += 1
             if n > self.MAX_LOOP:
+                if self.opaque_mutators:
+                    raise Imprecise(f"while loop at {module.rel}:{st.lineno} reached the iteration bound after unmodelled external call(s) {sorted(set(self.opaque_mutators))} "
+                                    f"received a mutable container: their effect on it is not modelled")
                 raise Imprecise(f"while loop at {module.rel}:{st.lineno} exceeds {self.MAX_LOOP} iterations")
             try:
                 self.exec_block(st.body, env, module)
@@ -1884,6 +1888,18 @@ class Interp:
                 raise PyRaise(ExcVal("SyntaxError", (str(ex),)))
             except (ValueError, RecursionError, MemoryError) as ex:
                 raise PyRaise(ExcVal(type(ex).__name__, (str(ex),)))
+        if name.startswith("heapq.") and args and isinstance(args[0], list):
+            # heap operations on a list of concrete keys: the host implementation is the reference (in place, like Python's)
+            import heapq as _hq
+            op_ = name.split(".", 1)[1]
+            if op_ in ("heappush", "heappop", "heapify", "heappushpop", "heapreplace") and not any(_opaque(x) for x in list(args[0]) + list(args[1:])):
+                try:
+                    return getattr(_hq, op_)(*args)
+                except IndexError as ex:
+                    raise PyRaise(ExcVal("IndexError", (str(ex),)))
+                except TypeError as ex:
+                    raise PyRaise(ExcVal("TypeError", (str(ex),)))
+            raise Imprecise(f"{name} on a heap with symbolic keys")
         if name.startswith("hashlib.") and name.split(".")[1] in ("md5", "sha1", "sha224", "sha256", "sha384", "sha512", "blake2b", "blake2s") \
                 and (not args or isinstance(args[0], (bytes, str))) and all(k in ("usedforsecurity",) for k in kwargs):
             # a digest of literal data is constant folding: the host implementation is the reference
@@ -2237,7 +2253,11 @@ class Interp:
             return ExcVal(last, tuple(args))
         if last == "field":
             return self.fresh("field")
-        # anything else outside the package: opaque, pure, deterministic in its arguments
+        # anything else outside the package: opaque, pure, deterministic in its arguments.  A call that was handed a
+        # mutable container may in fact change it (heapq, bisect.insort, random.shuffle …): remembered, so that a loop
+        # which then does not stop is reported as a modelling gap, not as the program's behaviour
+        if any(isinstance(a, (list, dict, set)) for a in list(args) + list(kwargs.values())):
+            self.opaque_mutators.append(name)
         self.event("extcall", name, tuple(a for a in args if not isinstance(a, (list, dict))))
         parts = [_sym(a) for a in args] + [f"{k}={_sym(v)}" for k, v in kwargs.items()]
         return Unknown(f"{name}({', '.join(parts)})")
